@@ -129,7 +129,8 @@ func VerifC05Scheduler() {
 	var mapOut [8]bool
 	if files {
 		for i := 0; i < nStores; i++ {
-			name := "s" + string(rune('0'+i))
+			// files live under <module hash>/states/, as store.NewConfig lays them out
+			name := execGraph.ModuleHashes().Get("s" + string(rune('0'+i)))
 			for seg := 0; seg < lastFileSeg; seg++ {
 				end := uint64((seg + 1) * size)
 				if sym.Choice("full", 2) == 1 {
@@ -146,7 +147,7 @@ func VerifC05Scheduler() {
 			if sym.Choice("output", 2) == 1 {
 				mapOut[seg] = true
 				r := block.NewRange(uint64(seg*size), uint64((seg+1)*size))
-				mem.Put("m/outputs/"+execoutConfigs.ConfigMap["m"].NewFile(r).Filename(), []byte{1})
+				mem.Put(execGraph.ModuleHashes().Get("m")+"/outputs/"+execoutConfigs.ConfigMap["m"].NewFile(r).Filename(), []byte{1})
 			}
 		}
 	}
@@ -166,14 +167,17 @@ func VerifC05Scheduler() {
 		for seg := 0; seg < nSegs; seg++ {
 			switch c05State(init, stg, seg) {
 			case 'C':
+				sym.Reach("scan-found-full-snapshot")
 				sym.Assert(cache[stg].full[seg], "scan-completed-only-with-full-snapshot")
 			case 'P':
+				sym.Reach("scan-found-partial")
 				sym.Assert(cache[stg].partial[seg], "scan-partial-present-only-with-partial-file")
 			}
 		}
 	}
 	for seg := 0; seg < nSegs; seg++ {
 		if c05State(init, nStores, seg) == 'C' {
+			sym.Reach("scan-found-mapper-output")
 			sym.Assert(mapOut[seg], "scan-mapper-completed-only-with-output-file")
 		}
 	}
@@ -293,6 +297,11 @@ func VerifC05Scheduler() {
 		if quiescent {
 			break
 		}
+	}
+	if !quiescent {
+		// the delivery bound ran out before the scheduler came to rest: nothing was
+		// decided about liveness on this path
+		sym.BoundExceeded("scheduler-not-quiescent-within-DEPTH")
 	}
 	if quiescent {
 		sym.Reach("quiescent")
